@@ -211,3 +211,35 @@ package openapiv3
 //@   at-call collectMessageRecursive requires io: arg0 == service.Methods[_i1].Input || arg0 == service.Methods[_i1].Output
 //@   loop 1 invariant count("collectMessageRecursive") == old(count("collectMessageRecursive")) + 2*_i1
 //@   ensures all: count("collectMessageRecursive") == old(count("collectMessageRecursive")) + 2*len(service.Methods)
+
+// ---- published scalar schemas follow the documented wire form (C06) ----
+
+// type and format table of scalar kinds; bytes formats and the (only) hex pattern
+//@ func (g *Generator) convertScalarField(field *protogen.Field) (r *base.SchemaProxy)
+//@   requires field != nil && g != nil
+//@   modifies *
+//@   at-call CreateSchemaProxy requires type_table: spec.scalarKindField(field) && spec.validKind(field.Desc.Kind()) ==> len(arg0.Type) == 1 && arg0.Type[0] == spec.oasType(field)
+//@   at-call CreateSchemaProxy requires format_table: spec.scalarKindField(field) && spec.validKind(field.Desc.Kind()) && !spec.hasRules(field) ==> arg0.Format == spec.oasFormat(field)
+//@   at-call CreateSchemaProxy requires bytes_pattern: field.Desc.Kind() == protoreflect.BytesKind && !spec.hasRules(field) ==> arg0.Pattern == spec.bytesPattern(field)
+//@   at-call CreateSchemaProxy requires unsigned_minimum: (field.Desc.Kind() == protoreflect.Uint32Kind || field.Desc.Kind() == protoreflect.Fixed32Kind || (spec.isU64(field.Desc.Kind()) && spec.int64Number(field))) && !spec.hasRules(field) ==> arg0.Minimum != nil && deref(arg0.Minimum) == 0.0
+//@   at-call convertEnumField requires enums_only: field.Desc.Kind() == protoreflect.EnumKind
+//@   at-call convertTimestampField requires timestamps_only: spec.isTimestamp(field)
+
+// Timestamp fields: integer for the UNIX formats, string (date / date-time) otherwise
+//@ func (g *Generator) convertTimestampField(field *protogen.Field, schema *base.Schema) (r *base.SchemaProxy)
+//@   requires field != nil && schema != nil
+//@   modifies *
+//@   at-call CreateSchemaProxy requires same_schema: arg0 == schema
+//@   at-call CreateSchemaProxy requires type_table: len(schema.Type) == 1 && schema.Type[0] == ite(spec.timestampClass(field) == "number", "integer", "string")
+//@   at-call CreateSchemaProxy requires format_table: schema.Format == ite(spec.timestampFormat(field) == sebufhttp.TimestampFormat_TIMESTAMP_FORMAT_UNIX_SECONDS, "unix-timestamp", ite(spec.timestampFormat(field) == sebufhttp.TimestampFormat_TIMESTAMP_FORMAT_UNIX_MILLIS, "unix-timestamp-ms", ite(spec.timestampFormat(field) == sebufhttp.TimestampFormat_TIMESTAMP_FORMAT_DATE, "date", "date-time")))
+
+// enum fields: integer enum of the numbers for NUMBER encoding, otherwise string enum of the custom value or the proto name of every value
+//@ func (g *Generator) convertEnumField(field *protogen.Field) (r *base.SchemaProxy)
+//@   requires field != nil
+//@   modifies *
+//@   at-call CreateSchemaProxy requires type_table: len(arg0.Type) == 1 && arg0.Type[0] == ite(field.Enum != nil && spec.enumEncoding(field) == sebufhttp.EnumEncoding_ENUM_ENCODING_NUMBER, "integer", "string")
+//@   at-call CreateSchemaProxy requires all_values: field.Enum != nil ==> len(arg0.Enum) == len(field.Enum.Values)
+//@   at-call CreateSchemaProxy requires value_names: field.Enum != nil && spec.enumEncoding(field) != sebufhttp.EnumEncoding_ENUM_ENCODING_NUMBER ==> (forall k int :: 0 <= k && k < len(field.Enum.Values) ==> arg0.Enum[k] != nil && arg0.Enum[k].Value == ite(spec.enumValueAnno(field.Enum.Values[k]) != "", spec.enumValueAnno(field.Enum.Values[k]), string(field.Enum.Values[k].Desc.Name())))
+//@   loop 1 invariant len(schema.Enum) == _i1
+//@   loop 2 invariant len(schema.Enum) == _i2
+//@   loop 2 invariant forall k int :: 0 <= k && k < _i2 ==> schema.Enum[k] != nil && schema.Enum[k].Value == ite(spec.enumValueAnno(field.Enum.Values[k]) != "", spec.enumValueAnno(field.Enum.Values[k]), string(field.Enum.Values[k].Desc.Name()))
